@@ -19,6 +19,7 @@ mod loopsim;
 mod worldb;
 mod wiresim;
 mod storesim;
+mod worlde;
 mod registry;
 
 use engine::*;
